@@ -626,7 +626,15 @@ V("c13-n-mu-other-edition", "C13", "pass", edits=[("physics/bodies/earth.py", " 
 V("c13-n-twopi-literal", "C13", "pass", edits=[(PCN, "TWOPI = 2.0 * pi", "TWOPI = pi + pi")])
 
 # ------------------------------------------------------------------------------------ C03.R4
-V("c03-revert-F18-ragged-event-lists", "C03", "violation", "C03.R4", revert="a8f827e")
+V("c03-revert-F18-ragged-event-lists", "C03", "violation", "C03.R4", edits=[
+    (CLF, "from numpy import array, finfo, ones_like, spacing, zeros", "from numpy import array, finfo, ones_like, spacing, zeros\nfrom numpy import max as np_max"),
+    (CLF, "            fired = [\n                (event_times[-1], event_states[-1])\n                for event_times, event_states in zip(solution.t_events or (), solution.y_events or ())\n                if len(event_times) > 0\n            ]\n            if not fired:", "            if array(solution.t_events).size == 0:"),
+    (CLF, "                current_time, stop_state = max(fired, key=lambda item: item[0])", "                current_time = np_max(solution.t_events)"),
+    (CLF, "                    current_state=stop_state.reshape(state_shape),", "                    current_state=solution.y_events[0].reshape(state_shape),"),
+])  # the reversed fix a8f827e as edits (its reverse patch no longer applies after 056cea2)
+V("c03-revert-F19-empty-segment", "C03", "violation", "C03.R6", revert="056cea2")
+V("c03-n-empty-segment-guard-by-count", "C03", "pass", edits=[(CLF, "            states = array(states).reshape((*state_shape, n_t)).copy()", "            states = states.reshape((*state_shape, n_t)).copy() if n_t > 0 else zeros((*state_shape, 0))")])
+V("c03-empty-segment-last-time-unguarded", "C03", "violation", "C03.R6", edits=[(CLF, "                if n_t > 0 and current_time == solution.t[-1]:", "                if current_time == solution.t[-1]:")])
 V("c03-bulk-restart-from-first-event", "C03", "violation", "C03.R4", edits=[("dynamics/celestial.py", "                    current_state=stop_state.reshape(state_shape),", "                    current_state=solution.y_events[0][-1].reshape(state_shape),")])
 
 # ------------------------------------------------------------------------------------ memo soundness / cache coherence
